@@ -45,7 +45,7 @@ def scenario(args):
         files = {}
         for n in r.shuffle(["a.txt", "src/b.rs", "c d.py"])[:r.range(2, 3)]:
             files[n] = "".join(w.fresh("H") + "\n" for _ in range(r.range(4, 8)))
-        sim.init(files)
+        sim.init(files, exec_files=[n for n in files if r.chance(1, 3)])
         for k in range(r.range(4, opts.get("max_ops", 14))):
             op = r.weighted(OPS)
             if op == "edit":
@@ -151,6 +151,73 @@ def scenario_reset_shift(args):
         shutil.rmtree(sim.base, ignore_errors=True)
 
 
+BRING_OPS = ["merge_squash", "cherry_pick_n", "merge_no_commit", "checkout_path", "pull_like_ff"]
+
+
+def scenario_stale_then_bring(args):
+    """A partial commit leaves INITIAL claims for f; a person removes the agent's lines again by hand (f is clean
+    against HEAD, no checkpoint); then a command brings a PERSON's lines to the same line numbers (squash merge /
+    cherry-pick -n / merge --no-commit / path checkout / fast-forward of a human-only branch) and the result is
+    committed: none of those lines may be credited to the session."""
+    base, seed, idx, opts = args
+    r = C.Rng(seed).fork(f"c03-sb-{idx}")
+    sim = Sim(base, f"sb{idx}")
+    op = opts.get("op") or r.pick(BRING_OPS)
+    try:
+        n = r.range(3, 6)
+        lines = [f"base{idx}-{i}" for i in range(n)]
+        sim.init({"f.txt": "\n".join(lines) + "\n", "g.txt": "g0\n", "o.txt": "o\n"})
+        pos = r.range(0, n)
+        k = r.range(1, 3)
+        # human-only branch: a person inserts k lines at pos
+        sim.git("checkout", "-q", "-b", "feature")
+        hl = lines[:pos] + [f"HUMAN{idx}-{j}" for j in range(k)] + lines[pos:]
+        sim.write("f.txt", "\n".join(hl) + "\n")
+        sim.realgit("add", "-A")
+        sim.git("commit", "-q", "-m", "human feature")
+        sim.git("checkout", "-q", "main")
+        # the agent inserts lines over the same positions in f and edits g; only g is committed
+        apos = max(0, pos - r.range(0, 1))
+        al = lines[:apos] + [f"AI{idx}-{j}" for j in range(r.range(k, k + 1))] + lines[apos:]
+        _ai(sim, r.pick(SESSIONS), "f.txt", "\n".join(al) + "\n")
+        _ai(sim, "s1", "g.txt", "g0\nAIg\n")
+        sim.realgit("add", "g.txt")
+        sim.git("commit", "-q", "-m", "only g")
+        # the person takes the agent's lines out again by hand: f is clean against HEAD, nothing is checkpointed
+        sim.write("f.txt", "\n".join(lines) + "\n")
+        if op == "merge_squash":
+            rc = sim.git("merge", "--squash", "feature")[0]
+        elif op == "cherry_pick_n":
+            rc = sim.git("cherry-pick", "-n", "feature")[0]
+        elif op == "merge_no_commit":
+            rc = sim.git("merge", "--no-ff", "--no-commit", "feature")[0]
+        elif op == "checkout_path":
+            rc = sim.git("checkout", "feature", "--", "f.txt")[0]
+        else:
+            # main has moved (only g): bring the branch's commit over with a real merge commit made by git
+            rc = sim.git("merge", "--no-ff", "-m", "merge feature", "feature")[0]
+        fails = []
+        if rc == 0:
+            if op != "pull_like_ff":
+                sim.realgit("add", "-A")
+                sim.git("commit", "-q", "-m", "result")
+            bl = sim.blame("f.txt")
+            text = (sim.read("f.txt") or "").split("\n")
+            bad = {ln: h for ln, h in (bl or {}).items() if ln - 1 < len(text) and not text[ln - 1].startswith("AI")}
+            if bl is None:
+                fails.append({"what": "blame failed", "op": op, "detail": sim.last_err, "known": False})
+            elif bad:
+                # cherry-pick -n has no refresh of the working log: the carried claims meet content git-ai never saw
+                # (class C03-K2: INITIAL claims are positional, there is no content snapshot).  The other commands
+                # drop or rebuild the working log themselves and must come out clean.
+                fails.append({"what": "invented attribution", "op": "stale INITIAL + " + op,
+                              "detail": [(ln, text[ln - 1], h) for ln, h in sorted(bad.items())][:3],
+                              "known": op == "cherry_pick_n"})
+        return {"idx": idx, "trace": [("stale_then_bring", op, rc)], "failures": fails, "log": sim.log if fails else None}
+    finally:
+        shutil.rmtree(sim.base, ignore_errors=True)
+
+
 def witness_k1(base):
     """AI edit, git stash (content gone, checkpoint entry stays), amend of the commit that added the file's lines"""
     sim = Sim(base, "k1")
@@ -168,7 +235,8 @@ def witness_k1(base):
 
 
 def witness_k2(base):
-    """unhooked `git restore` after a partial commit left INITIAL claims for the file"""
+    """INITIAL claims (carried over by a partial commit) are positional: a person rewrites the agent's lines by hand
+    (people do not checkpoint) and commits — the person's lines are blamed on the session"""
     sim = Sim(base, "k2")
     try:
         sim.init({"f.txt": "a\nb\nc\n", "o.txt": "o\n"})
@@ -176,7 +244,6 @@ def witness_k2(base):
         sim.write("o.txt", "o\no2\n")
         sim.realgit("add", "o.txt")
         sim.git("commit", "-q", "-m", "only o")
-        sim.git("restore", "f.txt")
         sim.write("f.txt", "a\nH1\nH2\nb\nc\n")
         sim.realgit("add", "-A")
         sim.git("commit", "-q", "-m", "human")
@@ -189,8 +256,10 @@ KNOWN = [
     ("C03-K1 work-tree content discarded by a command git-ai does not refresh the working log for (git stash, checkout -f, "
      "restore, path checkout without --) while a checkpoint entry keeps its AI line numbers; a later amend or reset+recommit "
      "that re-adds the file's lines colours human lines AI", witness_k1),
-    ("C03-K2 `git restore <file>` (not hooked) after a partial commit left INITIAL claims for the file: the next lines a person "
-     "types at those numbers are committed as AI", witness_k2),
+    ("C03-K2 INITIAL claims carried over by a partial commit are line numbers without a content snapshot "
+     "(checkpoint.rs: `INITIAL line numbers refer to the current state of the file`): when the file changes before git-ai "
+     "looks again — a person rewrites the agent's lines by hand, `git restore` + typing, `git cherry-pick -n` — the lines "
+     "now at those numbers are committed as AI", witness_k2),
 ]
 FIXED = [("fixed bae84d67 (stale INITIAL after `git checkout -- f`)", witness_fixed_initial),
          ("fixed 739e3592 (stale checkpoint entry after a person rewrote every AI line)", witness_fixed_stale_entry)]
@@ -232,6 +301,8 @@ def run(ctx):
     n = 150 if ctx.tier == "quick" else 3000
     res = C.parallel_map(scenario, [(ctx.scratch, ctx.seed, i, {}) for i in range(n)])
     res += C.parallel_map(scenario_reset_shift, [(ctx.scratch, ctx.seed, i, {}) for i in range(max(20, n // 5))])
+    res += C.parallel_map(scenario_stale_then_bring,
+                          [(ctx.scratch, ctx.seed, i, {"op": BRING_OPS[i % len(BRING_OPS)]}) for i in range(max(30, n // 5))])
     violations, obligations, known = [], [], []
     ops_hist, distinct, hits = {}, set(), 0
     for r_ in res:
